@@ -208,6 +208,30 @@ func init() {
 		"composition with the real handler runs (every data Set the backend sees has the full chunk length) is asserted by the C04 handler harness",
 	}, stdAssumptions...), Quick: append(c16q, cstep("handler-entry-sizes", map[string]int64{"lenset": 1}, []string{"c16-"}, csb+"every data entry the backend receives has the full chunk size, every metadata entry 40 bytes; value lengths {p-1,p,p+1}")), Thorough: c16t})
 
+	reg(Check{ID: "C15", Level: "model_checking", Assumptions: append([]string{
+		"A14: the network is an in-memory fake listener/connection pair; the handler constructors open one connection per call to in-process memcached models (real std handlers on top); net.Dial is not exercised",
+		"the request stream is one of four concrete representative pipelines (three text, one binary with symbolic value bytes) cut at every byte offset, then EOF; orchestrators L1Only, L1L2, Locked(L1L2), Locked(L1L2Batch, multi-reader)",
+		"'everything released' = at quiescence (no goroutine can run): client socket and both backend connections closed, the number of live goroutines is back to acceptor + harness, the engine's lock table is empty; then a fresh client is accepted and served",
+		"half-open TCP connections and slow clients are outside the claim",
+	}, stdAssumptions...),
+		Quick: []Job{{Pkg: "./zz_verif/orcah", Func: "ZZDisconnect", Reach: []string{"first-client-gone", "second-client-served"}, Bounds: "real server.ListenAndServe + DefaultServer.Loop + parsers + orcas + std handlers; 4 streams x every cut offset (0..len) x 4 orchestrator configurations x key in L1 or not"}}})
+
+	reg(Check{ID: "C14", Level: "model_checking", Assumptions: append([]string{
+		"claimed part: (a) pool discipline -- an object has arbitrary contents from the moment it is returned to its sync.Pool (havoc on release and on reuse), and putting an object that is already pooled is reported; under that model the whole-stack, wire-level and chunked-handler harnesses still produce the reference replies; (b) one handler instance (own backend connections) per client connection in ListenAndServe, also when a client sends its first byte after a later client was accepted; (c) two connections without lock wrapper on different keys, every interleaving at backend calls: each sees the replies it would see alone",
+		"not claimed: data-race freedom in the sense of the Go memory model over real schedules of many connections (the engine has no happens-before model of the runtime); metrics internals (C18)",
+		"A4: sync.Pool is LIFO; A5 mutex model",
+	}, orcaAssumptions...),
+		Quick: []Job{
+			{Pkg: "./zz_verif/orcah", Func: "ZZLateFirstByte", Reach: []string{"b-served", "a-served"}, Bounds: "real ListenAndServe, two text clients, the first one silent until the second has come and gone; L1Only and L1L2; values symbolic"},
+			{Pkg: "./zz_verif/orcah", Func: "ZZFault", Name: "pool-havoc-whole-stack", Params: map[string]int64{"nofault": 1, "poolhavoc": 1}, Reach: []string{"loop-returned", "read-back"}, Bounds: "whole stack with std handlers (see C01 glue), pooled headers arbitrary after release"},
+			replies("pool-havoc-wire", map[string]int64{"pipeline": 1, "poolhavoc": 1}, nil, "wire level (see C08), single binary request, pooled request/response headers arbitrary after release"),
+			cstep("pool-havoc-chunked", map[string]int64{"lenset": 1, "poolhavoc": 1}, nil, "real chunked handler step (see C04), pooled headers arbitrary after release"),
+			{Pkg: "./zz_verif/orcah", Func: "ZZLockedConcurrent", Name: "disjoint-keys-set", Params: map[string]int64{"nk": 2, "disjoint": 1, "a.cmd": 0}, Sched: true, SchedKinds: "rt,lock,unlock", SchedSkipPkgs: "github.com/netflix/rend/metrics", Reach: []string{"both-done"},
+				Bounds: "two connections (L1L2 and L1L2 / L1L2Batch, no lock wrapper) on different keys: A sets key 0, B issues any of the 9 commands on key 1; every interleaving at backend calls"},
+			{Pkg: "./zz_verif/orcah", Func: "ZZLockedConcurrent", Name: "disjoint-keys-get", Params: map[string]int64{"nk": 2, "disjoint": 1, "a.cmd": 8}, Sched: true, SchedKinds: "rt,lock,unlock", SchedSkipPkgs: "github.com/netflix/rend/metrics", Reach: []string{"both-done"},
+				Bounds: "the same with A getting key 0"},
+		}})
+
 	reg(Check{ID: "C11", Level: "model_checking", Assumptions: append([]string{
 		"binary: the 24 header bytes are fully symbolic (magic fixed to 0x80 in quick, symbolic in thorough); consistent frames declare at most 23 body bytes (so no second header fits in the stream), contradictory frames (total < key+extras) are all covered; the client sends min(total,23) arbitrary body bytes and then waits",
 		"allocation judged on the engine's allocation log: every make() between the start and the end of the connection loop, symbolic sizes asserted against 128 + (total - extras if consistent else 0) before they are concretised",
